@@ -25,17 +25,20 @@ func Walk(node Node, f func(Node) bool) {
 		walkComments(node.Last, f)
 	case *Comment:
 	case *Stmt:
-		for _, c := range node.Comments {
-			if !node.End().After(c.Pos()) {
-				defer Walk(&c, f)
+		// Comments which come after the statement are walked last,
+		// but still before the final f(nil), like any other child.
+		i := 0
+		for ; i < len(node.Comments); i++ {
+			if !node.End().After(node.Comments[i].Pos()) {
 				break
 			}
-			Walk(&c, f)
+			Walk(&node.Comments[i], f)
 		}
 		if node.Cmd != nil {
 			Walk(node.Cmd, f)
 		}
 		walkList(node.Redirs, f)
+		walkComments(node.Comments[i:], f)
 	case *Assign:
 		walkNilable(node.Name, f)
 		walkNilable(node.Value, f)
@@ -138,16 +141,17 @@ func Walk(node Node, f func(Node) bool) {
 		walkList(node.Items, f)
 		walkComments(node.Last, f)
 	case *CaseItem:
-		for _, c := range node.Comments {
-			if c.Pos().After(node.Pos()) {
-				defer Walk(&c, f)
+		i := 0
+		for ; i < len(node.Comments); i++ {
+			if node.Comments[i].Pos().After(node.Pos()) {
 				break
 			}
-			Walk(&c, f)
+			Walk(&node.Comments[i], f)
 		}
 		walkList(node.Patterns, f)
 		walkList(node.Stmts, f)
 		walkComments(node.Last, f)
+		walkComments(node.Comments[i:], f)
 	case *TestClause:
 		Walk(node.X, f)
 	case *DeclClause:
@@ -157,15 +161,16 @@ func Walk(node Node, f func(Node) bool) {
 		walkList(node.Elems, f)
 		walkComments(node.Last, f)
 	case *ArrayElem:
-		for _, c := range node.Comments {
-			if c.Pos().After(node.Pos()) {
-				defer Walk(&c, f)
+		i := 0
+		for ; i < len(node.Comments); i++ {
+			if node.Comments[i].Pos().After(node.Pos()) {
 				break
 			}
-			Walk(&c, f)
+			Walk(&node.Comments[i], f)
 		}
 		walkNilable(node.Index, f)
 		walkNilable(node.Value, f)
+		walkComments(node.Comments[i:], f)
 	case *ExtGlob:
 		Walk(node.Pattern, f)
 	case *ProcSubst:
